@@ -38,6 +38,7 @@ class Machine:
         self.announced = []  # what the registration hook received, in order
         self.n_obj = 0
         self.n_probe = 0
+        self.partials = []
         self.stored_fp = {}
         self.stored_vv = {}
         self.defined_at = {}
@@ -427,6 +428,9 @@ class Machine:
             elif op == "clone":
                 name = None
                 self._clone(step)
+            elif op == "partial":
+                name = None
+                self._partial(step)
             else:
                 raise core.HarnessError("unknown step " + op)
         except (core.HarnessError, core.Abort):
@@ -435,6 +439,21 @@ class Machine:
             exc = e
             name = None
         return name, exc, self.announced[before:]
+
+    def _partial(self, step):
+        """Decorate ``functools.partial(f, ...)`` of an already contracted function: a new callable with contracts of its own."""
+        f = self.world.funcs[step["unit"]]
+        n = len([s_ for s_ in self.world.contracts if s_.startswith("%s.partial/" % step["unit"])])
+        sid = "%s.partial/%s%d" % (step["unit"], step["role"], n)
+        if step["role"] == "pre":
+            cond = self.world._fn("c_" + core._san(sid), ("t",), "sync", sid, "pre")
+            dec = icontract.require(cond, description="[[%s]]" % sid, enabled=True)
+        else:
+            cond = self.world._fn("c_" + core._san(sid), ("t", "result"), "sync", sid, "post")
+            dec = icontract.ensure(cond, description="[[%s]]" % sid, enabled=True)
+        self.partials.append(dec(functools.partial(f)))
+        self.world.contracts[sid] = dec._contract
+        return sid
 
     def _clone(self, step):
         """Re-create a class from its own namespace through its metaclass (what ``dataclasses.dataclass(slots=True)`` and
